@@ -16,6 +16,17 @@ CLAIMS = {
              "combinator semantics re-implemented in Peg.lean), generators. QName iff-theorem not yet proved (tie only).",
         technique="Lean 4 proof (omega on extracted range tables; closed forms of translated PEG productions) + exhaustive extraction + translator",
         ref="DESIGN.md section 6 C18"),
+    "C16": dict(
+        text="Kernel-checked characterisation of the DOM Level 1 CharacterData operations on lists of characters "
+             "(which characters come out, what is preserved, INDEX_SIZE_ERR exactly for offset > length, counts clipped "
+             "so that usize::MAX is not special, replace = delete;insert, split parts concatenate to the original), for "
+             "all strings, offsets and counts; tie: the real text/comment/CDATA/merged-text nodes are driven through "
+             "exhaustive single operations (all offsets/counts 0..len+2 and usize::MAX) and random operation sequences "
+             "and must answer exactly as the proved model after every call.",
+        note="Trusted: Lean kernel, harness `chardata`, generators. The model is hand-written (lean/XmlRsModel/CharData.lean); "
+             "agreement with the Rust code is established on the cases of each run only. Validation of inserted text is C15.",
+        technique="Lean 4 proof (list lemmas, omega) + differential correspondence against the hand-written model",
+        ref="DESIGN.md section 6 C16"),
 }
 
 PENDING_REASON = "check not built yet (work in progress; see DESIGN.md section 10 build order)"
